@@ -189,6 +189,46 @@ def check_tableaux(ctx, tabs):
     return ok_all
 
 
+MEMLAYOUTS = ['C', 'F', 'T']      # C-ordered, Fortran-ordered copy, transposed view of a C-ordered array
+
+
+def in_layout(a, style):
+    """an array equal to `a` stored in the given memory layout (a *stored* matrix a callback hands out)"""
+    a = np.array(a, dtype=float, order='C', copy=True)
+    if a.ndim != 2 or style == 'C':
+        return a
+    if style == 'F':
+        return np.asfortranarray(a)
+    return np.ascontiguousarray(a.T).T
+
+
+class Owned:
+    """bitwise monitoring of caller-owned arrays: everything passed into the library or handed out by a
+    callback must be unchanged afterwards (buffers refilled by a callback are re-registered by the callback)"""
+    def __init__(self):
+        self.items = {}
+
+    def reg(self, name, arr):
+        if arr is not None and hasattr(arr, 'tobytes'):
+            self.items[name] = (arr, np.array(arr, copy=True))
+        elif arr is not None and hasattr(arr, 'data') and hasattr(arr, 'indices'):      # scipy CSR/CSC
+            self.items[name] = (arr, (arr.data.copy(), arr.indices.copy(), arr.indptr.copy()))
+        return arr
+
+    def changed(self):
+        bad = []
+        for name, (arr, snap) in self.items.items():
+            if isinstance(snap, tuple):
+                ok = (arr.data.tobytes() == snap[0].tobytes() and arr.indices.tobytes() == snap[1].tobytes()
+                      and arr.indptr.tobytes() == snap[2].tobytes())
+            else:
+                ok = arr.shape == snap.shape and np.asarray(arr).tobytes(order='A') == snap.tobytes(order='A') and \
+                    np.array_equal(arr, snap, equal_nan=True)
+            if not ok:
+                bad.append(name)
+        return bad
+
+
 # ----------------------------------------------------------------------------- generators
 def spd_int(rng, n):
     B = rng.integers(-2, 3, size=(n, n)).astype(float)
@@ -360,15 +400,20 @@ def run(ctx):
         if conds(mats) > 1e4:
             ctx.count('dirk: skipped (condition number > 1e4)'); continue
         calls = []
-        def F(y, L=L, g=g, calls=calls):
-            calls.append(np.array(y, dtype=float)); return L @ y + g
+        own = Owned()
+        lay = MEMLAYOUTS[int(rng.integers(0, 3))]
+        Lst = own.reg('L (stored matrix returned by J and read by F)', in_layout(L, lay))     # independent of the reference copy `L`
+        def F(y, Lst=Lst, g=g, calls=calls):
+            calls.append(np.array(y, dtype=float)); return Lst @ y + g
         if kind == 1:
-            Mobj = M; J = lambda y, L=L: L
+            Mobj = own.reg('M', in_layout(M, MEMLAYOUTS[int(rng.integers(0, 3))])); J = lambda y, Lst=Lst: Lst
         elif kind == 2:
-            Mobj = scipy.sparse.csr_matrix(M); Ls = scipy.sparse.csr_matrix(L); J = lambda y, Ls=Ls: Ls
+            Mobj = own.reg('M (csr)', scipy.sparse.csr_matrix(M)); Ls = own.reg('J (csr)', scipy.sparse.csr_matrix(L)); J = lambda y, Ls=Ls: Ls
         else:
-            Mobj = None; Ls = scipy.sparse.csr_matrix(L); J = lambda y, Ls=Ls: Ls
-        tag, out = guarded(lambda: solvers.dirk_step(Afull, Mobj, F, J, x.copy(), tau, None, Fx=None if Fx is None else Fx.copy()))
+            Mobj = None; Ls = own.reg('J (csr)', scipy.sparse.csr_matrix(L)); J = lambda y, Ls=Ls: Ls
+        xarg = own.reg('x', x.copy()); Fxarg = own.reg('Fx', None if Fx is None else Fx.copy()); Aarg = own.reg('A (tableau)', Afull.copy())
+        tag, out = guarded(lambda: solvers.dirk_step(Aarg, Mobj, F, J, xarg, tau, None, Fx=Fxarg))
+        report_owned(ctx, own, 'dirk_step', {'tableau': name, 'layout_of_L': lay, 'M': ['None', 'dense', 'sparse'][kind]})
         r = 'dirk %d %d %s %d %d %s %s %s %s %s %d%s' % (
             s, Afull.shape[0], fvec(Afull), n, 0 if kind == 0 else 1, fvec(M), fvec(L), fvec(g), fvec(x), frac(tau),
             0 if Fx is None else 1, '' if Fx is None else ' ' + fvec(Fx))
@@ -395,12 +440,18 @@ def run(ctx):
             kind = 1; M = spd_int(rng, n)
         if conds([M - tau * G[0, 0] * L]) > 1e4:
             ctx.count('ros: skipped (condition number > 1e4)'); continue
+        own = Owned()
+        lay = MEMLAYOUTS[int(rng.integers(0, 3))]
+        Lst = own.reg('L (stored matrix returned by J and read by F)', in_layout(L, lay))
         if kind == 1:
-            Mobj = M; J = lambda y, L=L: L
+            Mobj = own.reg('M', in_layout(M, MEMLAYOUTS[int(rng.integers(0, 3))])); J = lambda y, Lst=Lst: Lst
         else:
-            Mobj = scipy.sparse.csr_matrix(M); Ls = scipy.sparse.csr_matrix(L); J = lambda y, Ls=Ls: Ls
-        F = lambda y, L=L, g=g: L @ y + g
-        tag, out = guarded(lambda: solvers.rosenbrock_step(A, G, b, bh, Mobj, F, J, x.copy(), tau, dict()))
+            Mobj = own.reg('M (csr)', scipy.sparse.csr_matrix(M)); Ls = own.reg('J (csr)', scipy.sparse.csr_matrix(L)); J = lambda y, Ls=Ls: Ls
+        F = lambda y, Lst=Lst, g=g: Lst @ y + g
+        xarg = own.reg('x', x.copy())
+        Aarg, Garg, barg = own.reg('A', A.copy()), own.reg('Gamma', G.copy()), own.reg('b', b.copy())
+        tag, out = guarded(lambda: solvers.rosenbrock_step(Aarg, Garg, barg, bh, Mobj, F, J, xarg, tau, dict()))
+        report_owned(ctx, own, 'rosenbrock_step', {'tableau': name, 'layout_of_L': lay})
         r = 'ros %d %s %s %s %d%s %d %s %s %s %s %s' % (
             s, fvec(A), fvec(G), fvec(b), 0 if bh is None else 1, '' if bh is None else ' ' + fvec(bh),
             n, fvec(M), fvec(L), fvec(g), fvec(x), frac(tau))
@@ -411,22 +462,39 @@ def run(ctx):
     # Newton
     nnewt = 300 if quick else 5000
     for it in range(nnewt):
-        n = int(rng.integers(1, 4))
+        n = int(rng.integers(1, 5))
         Q = rng.integers(-2, 3, size=(n, n)).astype(float) + float(rng.integers(3, 7)) * np.eye(n)
         dq = rng.integers(-1, 2, size=n).astype(float) * float(rng.choice([0.0, 0.5, 1.0]))
+        jmode = ['fresh', 'stored', 'buffer'][int(rng.integers(0, 3))]
+        if jmode == 'stored':
+            dq = np.zeros(n)          # a stored (constant) Jacobian is the Jacobian of a linear problem
         c = rng.integers(-4, 5, size=n).astype(float)
         x0 = rng.integers(-2, 3, size=n).astype(float)
         atol = float(rng.choice([1e-3, 1e-6, 1e-9])); rtol = float(rng.choice([1e-6, 1e-3, 1e-9]))
         maxiter = int(rng.choice([0, 1, 2, 3, 6, 6, 6])); freeze = int(rng.choice([1, 1, 2, 3]))
         calls = []
-        def F(x_, Q=Q, dq=dq, c=c, calls=calls):
-            calls.append(np.array(x_)); return Q @ x_ + dq * x_ * x_ - c
+        own = Owned()
+        lay = MEMLAYOUTS[int(rng.integers(0, 3))]
+        Qst = own.reg('Q (stored matrix read by F%s)' % (' and returned by J' if jmode == 'stored' else ''), in_layout(Q, lay))   # `Q` stays the reference copy
+        def F(x_, Qst=Qst, dq=dq, c=c, calls=calls):
+            calls.append(np.array(x_)); return Qst @ x_ + dq * x_ * x_ - c
         jcalls = []
-        def J(x_, Q=Q, dq=dq, jcalls=jcalls):
-            jcalls.append(np.array(x_)); return Q + 2 * np.diag(dq * x_)
-        tag, out = guarded(lambda: solvers.newton(F, J, x0.copy(), atol=atol, rtol=rtol, maxiter=maxiter, freeze_jac=freeze))
+        if jmode == 'fresh':
+            def J(x_, Q=Q, dq=dq, jcalls=jcalls, lay=lay):
+                jcalls.append(np.array(x_)); return in_layout(Q + 2 * np.diag(dq * x_), lay)
+        elif jmode == 'stored':
+            def J(x_, Qst=Qst, jcalls=jcalls):
+                jcalls.append(np.array(x_)); return Qst
+        else:
+            jbuf = in_layout(np.zeros((n, n)), lay)
+            def J(x_, Q=Q, dq=dq, jcalls=jcalls, jbuf=jbuf):
+                jcalls.append(np.array(x_)); jbuf[...] = Q + 2 * np.diag(dq * x_); return jbuf
+        x0arg = own.reg('x0', x0.copy())
+        tag, out = guarded(lambda: solvers.newton(F, J, x0arg, atol=atol, rtol=rtol, maxiter=maxiter, freeze_jac=freeze))
+        report_owned(ctx, own, 'newton', {'J_callback': jmode, 'memory_layout': lay, 'Q': Q.tolist(), 'dq': dq.tolist(), 'c': c.tolist(), 'x0': x0.tolist()})
+        ctx.count('newton J=%s layout=%s' % (jmode, lay))
         r = 'newton %d %s %s %s %s %s %s %d %d' % (n, fvec(Q), fvec(dq), fvec(c), fvec(x0), frac(atol), frac(rtol), maxiter, freeze)
-        add(r, ('newton', Q, dq, c, x0, atol, rtol, maxiter, freeze, tag, out, len(calls), len(jcalls)))
+        add(r, ('newton', Q, dq, c, x0, atol, rtol, maxiter, freeze, tag, out, len(calls), len(jcalls), jmode, lay))
         ctx.case(('newton', it), nontrivial=(maxiter >= 2))
         ctx.count('newton:' + tag)
 
@@ -781,6 +849,14 @@ def real_runs(ctx, solvers, T, add, guarded):
             add('constf %d %d %d' % (bits(t0), bits(tau0), bits(t_end)), ('constr', desc, [float(t) for t in times], len(sols)))
 
 
+def report_owned(ctx, own, what, info):
+    """caller-owned arrays (arguments, arrays handed out by callbacks) must be bitwise unchanged after the call"""
+    bad = own.changed()
+    ctx.count('owned arrays monitored', len(own.items))
+    if bad:
+        ctx.violation('ode-owned:' + what, '%s modified caller-owned data in place: %s' % (what, ', '.join(bad)), dict(info, modified=bad), False)
+
+
 def compare(ctx, solvers, r, g, m, tabs):
     """returns None or (key, what, replay, found_input)"""
     import c12_tableaux as T
@@ -978,7 +1054,7 @@ def compare(ctx, solvers, r, g, m, tabs):
         return ('ode-corr:dirkf', 'dirk_step inside %s disagrees with the model on: %s' % (cdesc['method'], ', '.join(problems)) + ('; ' + v if v else ''),
                 dict(cdesc, implementation_x_new=xi.tolist(), model_x_new=xm.tolist()), v is not None)
     if op == 'newton':
-        _, Q, dq, c, x0, atol, rtol, maxiter, freeze, tag, out, ncalls, njac = m
+        _, Q, dq, c, x0, atol, rtol, maxiter, freeze, tag, out, ncalls, njac, jmode, lay = m
         if g == 'err-singular':
             ctx.count('newton: skipped (singular Jacobian)'); return None
         head, kpart, norms, targ = g.split(' | ')
@@ -1018,9 +1094,10 @@ def compare(ctx, solvers, r, g, m, tabs):
         v = oracle_verdict()
         if not problems and v is None:
             return None
-        return ('ode-corr:newton', 'newton disagrees with the model on: ' + ', '.join(problems) + ('; ' + v if v else ''),
+        return ('ode-corr:newton' if v is None else 'ode:newton-contract',
+                'newton disagrees with the model on: ' + ', '.join(problems) + ('; ' + v if v else ''),
                 {'Q': Q.tolist(), 'dq': dq.tolist(), 'c': c.tolist(), 'x0': x0.tolist(), 'atol': atol, 'rtol': rtol, 'maxiter': maxiter,
-                 'freeze_jac': freeze, 'implementation': tag, 'F': 'Q@x + dq*x*x - c'}, v is not None)
+                 'freeze_jac': freeze, 'implementation': tag, 'F': 'Q@x + dq*x*x - c', 'J_callback': jmode, 'memory_layout_of_stored_matrices': lay}, v is not None)
     if op == 'const':
         _, t0, tau, tend, script, tag, out = m
         if tag != 'ok':
